@@ -540,7 +540,7 @@ func checkC06(w *World, r *Report) {
 	netConn := w.ByPath["net"].Types.Scope().Lookup("Conn").Type().Underlying().(*types.Interface)
 	nbi := w.Func("internal/streams", "NewBufferedInputConnection")
 	nbuf := 0
-	for fn := range allModuleFuncs(w, w.SSA()) {
+	for _, fn := range sortedModuleFuncs(w, w.SSA()) {
 		for _, c := range callsIn(fn) {
 			f := sCallee(c)
 			if f == nil || f.Pkg() == nil || f.Pkg().Path() != "bufio" {
@@ -573,7 +573,7 @@ func checkC06(w *World, r *Report) {
 	}
 	// inside the handshake package no further buffering layer may be put over the inbound stream: the line/header
 	// parser must sit directly on the connection's one bufio.Reader
-	for fn := range allModuleFuncs(w, w.SSA()) {
+	for _, fn := range sortedModuleFuncs(w, w.SSA()) {
 		f0 := fn
 		for f0.Parent() != nil {
 			f0 = f0.Parent()
@@ -613,7 +613,7 @@ func checkC06(w *World, r *Report) {
 
 	// callers of Request.Read / Response.Read pass the BufferedInputConnection's Reader field
 	bic := w.Named("internal/streams", "BufferedInputConnection")
-	for fn := range allModuleFuncs(w, w.SSA()) {
+	for _, fn := range sortedModuleFuncs(w, w.SSA()) {
 		for _, c := range callsIn(fn) {
 			f := sCallee(c)
 			if f != reqRead && f != respRead {
@@ -636,7 +636,7 @@ func bicNamed(w *World) *types.Named { return w.Named("internal/streams", "Buffe
 
 // ruleHandshakeBounds: no peer byte sequence can drive an index out of range in the handshake parsers
 func ruleHandshakeBounds(w *World, r *Report, rule string) {
-	for fn := range allModuleFuncs(w, w.SSA()) {
+	for _, fn := range sortedModuleFuncs(w, w.SSA()) {
 		if fn.Parent() != nil || fn.Pkg == nil || fn.Synthetic != "" {
 			continue
 		}
